@@ -12,16 +12,29 @@ for un in sys.argv[1:]:
     except build.Inconclusive as e:
         print("note:", str(e)[:300])
     hashes = {}
+    counts = {}
     for line in open(os.path.join(build.BUILD, un + ".xlog")):
         p = line.rstrip("\n").split("\t")
         if p[0] == "LOOP":
             hashes[(p[2], p[3])] = p[4]
+            counts[p[2]] = max(counts.get(p[2], 0), int(p[3]))
     for c in u["contracts"]:
         path = os.path.join(VERIF, "contracts", c)
         out = []; f = None; changed = False
-        for line in open(path).read().split("\n"):
+        lines = open(path).read().split("\n")
+        seen_loops = set()
+        for idx, line in enumerate(lines):
+            if line.startswith("#loops "):
+                continue
             if line.startswith("#fn "):
                 f = line[4:].strip().replace("::", "__")
+                out.append(line)
+                if f in counts and f not in seen_loops:
+                    seen_loops.add(f)
+                    new = "#loops %d" % counts[f]
+                    out.append(new)
+                    if not (idx + 1 < len(lines) and lines[idx + 1] == new): changed = True
+                continue
             m = re.match(r"^#(inv|dec|pre|post|bs|be) (\d+)(.*)$", line)
             if m and (f, m.group(2)) in hashes:
                 rest = re.sub(r"\s*@hdr=\w+", "", m.group(3))
